@@ -1,13 +1,9 @@
 package probe
 import ("testing";"fmt";"github.com/luthersystems/elps/verifharness/vcommon")
 func TestP(t *testing.T){
-  src := "(set 'cnt 0)\n(defun g (k) (set 'cnt (+ cnt 1)) (if (= k 0) 0 (f 3)))\n(defun f (n) (g 0) (if (= n 0) 'done (f (- n 1))))\n(g 1)\ncnt"
-  src2 := "(defun f (n) (probe 'inner (f2 n)) (if (<= n 0) 'done (f (- n 1))))\n(defun f2 (n) n)\n(defun h (n) (probe 'x n) (if (<= n 0) 0 (+ 1 (h 0))) (if (<= n 0) 'd (h (- n 1))))\n(list (f 2) (h 2))"
-  for _, dbg := range []bool{false,true} {
-    for _, s := range []string{src, src2} {
-    rt := vcommon.NewRuntime(vcommon.Cfg{NoStdlib:true, Debugger:dbg, MaxSteps: 100000})
-    o := rt.Load(s)
-    fmt.Println("debugger", dbg, "=>", o.Key(), o.Msg, vcommon.TraceString(rt.Trace))
-    }
-  }
+  src := "(defmacro mbn (a) (quasiquote (progn (list 0) (unquote (list (car '(car)) a)))))\n(defun f (x) (mbn x))\n(f 8)"
+    rt := vcommon.NewRuntime(vcommon.Cfg{NoStdlib:true, MaxSteps: 100000})
+    o := rt.Load(src)
+    loc,_ := o.Val.Source()
+    fmt.Println("=>", o.Key(), o.Msg, loc.Line, loc.Col)
 }
